@@ -178,12 +178,22 @@ def run(ctx):
         if isinstance(x, ast.Assign) and len(x.targets) == 1 and isinstance(x.targets[0], ast.Name):
             assigns.setdefault(x.targets[0].id, []).append(x.value)
     flags = [k for k, vs in assigns.items() if all(isinstance(v, ast.Constant) and isinstance(v.value, bool) for v in vs)]
+    # ... or a counter used as one: initialised to 0, only ever incremented
+    augs = {}
+    for x in walk_body_shallow(it.body):
+        if isinstance(x, ast.AugAssign) and isinstance(x.target, ast.Name):
+            augs.setdefault(x.target.id, []).append(x)
+    counters = [k for k, vs in assigns.items() if k in augs and all(isinstance(v, ast.Constant) and v.value == 0 and not isinstance(v.value, bool) for v in vs) and all(
+        isinstance(a.op, ast.Add) and isinstance(a.value, ast.Constant) and isinstance(a.value.value, int) and a.value.value > 0 for a in augs[k])]
+    flags = [k for k in flags if k not in augs] + counters
 
     def falsy(f, v):
-        return (v, False) in f or (v + " is False", True) in f or (v + " is True", False) in f or ("not " + v, True) in f
+        return (v, False) in f or (v + " is False", True) in f or (v + " is True", False) in f or ("not " + v, True) in f or (v + " == 0", True) in f or (
+            v + " > 0", False) in f or (v + " != 0", False) in f
 
     def truthy(f, v):
-        return (v, True) in f or (v + " is False", False) in f or (v + " is True", True) in f or ("not " + v, False) in f
+        return (v, True) in f or (v + " is False", False) in f or (v + " is True", True) in f or ("not " + v, False) in f or (v + " == 0", False) in f or (
+            v + " > 0", True) in f or (v + " != 0", True) in f
 
     flagv = None
     for v in flags:
@@ -192,8 +202,8 @@ def run(ctx):
     ok = bool(rs) and flagv is not None
     if ok:
         ys = [n for n in ci.nodes if any(isinstance(x, ast.Yield) for x in n.walk())]
-        sets = [n for n in ci.nodes if n.kind == "stmt" and isinstance(n.stmt, ast.Assign) and unparse(n.stmt.targets[0]) == flagv and
-                getattr(n.stmt.value, "value", None) is True]
+        sets = [n for n in ci.nodes if n.kind == "stmt" and ((isinstance(n.stmt, ast.Assign) and unparse(n.stmt.targets[0]) == flagv and
+                getattr(n.stmt.value, "value", None) is True) or (isinstance(n.stmt, ast.AugAssign) and unparse(n.stmt.target) == flagv and flagv in counters))]
         ok = bool(ys) and bool(sets) and all(ci.dominates([s.id for s in sets], y.id) for y in ys) and all(
             any(y.id in [tt for tt, lab in ci.succ[s.id]] for y in ys) for s in sets)
         arm = ci.reach([hs[0].id])
